@@ -1,12 +1,13 @@
 CONSTANTS
   Dev = {}
-  RD = 2
-  MaxRetries = 1
+  TickMs = 10000
+  Confs <- MCConfs
   MaxDgrams = 2
   Faults <- MCFaults
 SPECIFICATION DSpec
 INVARIANT DOwnAnswer
 INVARIANT DAtMostOnce
 INVARIANT DBudget
+INVARIANT DConfigured
 INVARIANT DCurrentAttempt
 CHECK_DEADLOCK FALSE
